@@ -97,6 +97,11 @@ type qtQueries struct {
 	filters [][2]int
 	noQuery bool
 	m       *qtMap
+	// region, when set, is this caller's part of an array of result slots shared by all callers: k-nearest results
+	// are asked into successive 16-slot windows of it (length 0, capacity reaching to the end of the shared array - the
+	// slots behind a window belong to somebody else)
+	region    []orb.Pointer
+	regionPos int
 }
 
 func accept(f [2]int) quadtree.FilterFunc {
@@ -237,6 +242,10 @@ func qtObserve(q *quadtree.Quadtree, e *qtEv, qs *qtQueries, bufs bool) {
 					var buf []orb.Pointer
 					if bufs { // caller-supplied result buffers of various capacities
 						buf = make([]orb.Pointer, 0, ((k+md)%4+4)%4)
+						if qs.region != nil && k <= 16 && qs.regionPos+16 <= len(qs.region) {
+							buf = qs.region[qs.regionPos:qs.regionPos]
+							qs.regionPos += 16
+						}
 					}
 					var res []orb.Pointer
 					switch {
